@@ -4,7 +4,9 @@
      C01_fragment_preservation -- semantic preservation of the backend model (Back/IR.v `lower` + the AST
      twin Pres/EmitAst.v of the text emitter Back/Emit.v) with respect to the reference interpreter
      Sem/SyltSem.v (source side) and the Lua 5.3 interpreter model Lua/LuaCore.v (target side), for the
-     computable fragment Pres/Frag.v `frag` (stage stated there).  The Lua side runs the statements of the
+     computable fragment Pres/Frag.v `frag` (STAGE 2: int/bool expressions, print, definitions, assignments
+     = += -= *=, if/elif/else expressions and statements, loops with break and continue, blocks, inside
+     `start :: fn do ... end`).  The Lua side runs the statements of the
      REAL preamble.lua (Gen/GenPreamble.v, regenerated on every run) followed by the program's statements.
    WHAT IS CHECKED AT RUN TIME, per program of the tie (tools/props/c01.py):
      * component "emit_ast": LuaParse.parse_lua Lua53 (real compiler output) = ParseOk (chunk_ast code), i.e. the
@@ -113,5 +115,66 @@ Example C01_example_lua_side :
   end.
 Proof. vm_compute. split; reflexivity. Qed.
 
+(* ---- a second program of the fragment (stage 2): mutable variables, compound assignment, a loop with
+   break and continue, if statements and an if-expression ----
+     start :: fn do
+       i := 0
+       s := 0
+       loop i < 10 do
+         i += 1
+         if i == 3 do continue end
+         if i > 6 do break end
+         s = s + (if i < 3 do 1 else 2 end)
+         print(s)
+       end
+       print(i)
+     end                                                                                        *)
+Definition ex_prog2 : resolved :=
+  mkResolved
+    [mkVar 0 "print" sp0 true Const; mkVar 1 "start" sp0 true Const; mkVar 2 "== STACK ==" sp0 false Const;
+     mkVar 3 "i" sp0 false Mutable; mkVar 4 "s" sp0 false Mutable]
+    [SExternalDefinition "print" 0 Const (TImplied sp0) sp0;
+     SDefinition "start" 1 Const (TImplied sp0)
+       (EFunction "lambda" [] (TImplied sp0)
+          [SDefinition "i" 3 Mutable (TImplied sp0) (EInt 0 sp0) sp0;
+           SDefinition "s" 4 Mutable (TImplied sp0) (EInt 0 sp0) sp0;
+           SLoop (EBinOp Less (ERead 3 sp0) (EInt 10 sp0) sp0)
+             [SAssignment Add (ERead 3 sp0) (EInt 1 sp0) sp0;
+              SStatementExpression
+                (EIf [IfBranch (Some (EBinOp Equals (ERead 3 sp0) (EInt 3 sp0) sp0)) [Resolved.SContinue sp0] sp0] sp0) sp0;
+              SStatementExpression
+                (EIf [IfBranch (Some (EBinOp Greater (ERead 3 sp0) (EInt 6 sp0) sp0)) [Resolved.SBreak sp0] sp0] sp0) sp0;
+              SAssignment Nop (ERead 4 sp0)
+                (EBinOp Add (ERead 4 sp0)
+                   (EIf [IfBranch (Some (EBinOp Less (ERead 3 sp0) (EInt 3 sp0) sp0)) [SStatementExpression (EInt 1 sp0) sp0] sp0;
+                         IfBranch None [SStatementExpression (EInt 2 sp0) sp0] sp0] sp0) sp0) sp0;
+              SStatementExpression (Resolved.ECall (ERead 0 sp0) [ERead 4 sp0] sp0) sp0] sp0;
+           SStatementExpression (Resolved.ECall (ERead 0 sp0) [ERead 3 sp0] sp0) sp0]
+          false sp0) sp0].
+
+Example C01_example2_hypotheses :
+  frag 30 ex_prog2 = true /\
+  (exists code, lower 30 ex_prog2 = Ok code) /\
+  SyltSem.run 60 ex_prog2 = mkRun ["1"; "2"; "4"; "6"; "8"; "7"]%string ODone.
+Proof. split; [vm_compute; reflexivity | split; [eexists; vm_compute; reflexivity | vm_compute; reflexivity]]. Qed.
+
+Example C01_example2_lua_side :
+  match lower 30 ex_prog2 with
+  | Ok code => let out := LuaCore.run_block Lua53 4900 (chunk_ast code) in
+               o_trace out = ["1"; "2"; "4"; "6"; "8"; "7"]%string /\ o_final out = FDone
+  | _ => False
+  end.
+Proof. vm_compute. split; reflexivity. Qed.
+
 Print Assumptions C01_fragment_preservation.
 Print Assumptions C01_fragment_preservation_text.
+
+(* ---- source tie: the hand-written model behind these theorems mirrors the files below; the digests of their
+   functions regenerated from /repo on this run equal the reviewed ones (coq/Doc/DocSrcDigest.v).  Any edit of
+   such a function breaks this obligation: the differential tie and the oracle then decide (tools/check.py). *)
+From Sylt Require Doc.SrcDigest Doc.DocSrcDigest Gen.GenSrcDigest.
+Theorem C01_model_sources_reviewed :
+  Sylt.Doc.SrcDigest.sources_reviewed ["sylt-compiler/src/intermediate.rs"%string; "sylt-compiler/src/lua.rs"%string]
+    Sylt.Doc.DocSrcDigest.doc_src_digests Sylt.Gen.GenSrcDigest.src_digests = true.
+Proof. vm_compute. reflexivity. Qed.
+Print Assumptions C01_model_sources_reviewed.
